@@ -1217,7 +1217,43 @@ def _disagree(ctx, name, case, res):
         ctx.broken.append("correspondence %s: model and implementation disagree on %s" % (name, json.dumps(fw.jsonable(case))[:600]))
 
 
+# every implementation object the Gallina models mirror by hand (Model/C09_QueryCodec.v, C09_Held.v, C09_Multipart.v)
+MODELLED = [
+    # util.py: hexval / unq_item / unquote / parse_qsl_text
+    "webob.util:_hexdig", "webob.util:_hextobyte", "webob.util:unquote", "webob.util:parse_qsl_text",
+    # stdlib: quote_plus_byte / quote_plus / urlencode_b (modelled, validated by the on_change correspondence)
+    "urllib.parse:_ALWAYS_SAFE", "urllib.parse:quote_from_bytes", "urllib.parse:quote_plus", "urllib.parse:urlencode",
+    # GetDict: on_change and the mutators that call it (rq_step / hq_apply); copy() is untracked
+    "webob.multidict:GetDict.__init__", "webob.multidict:GetDict.on_change", "webob.multidict:GetDict.__setitem__",
+    "webob.multidict:GetDict.add", "webob.multidict:GetDict.__delitem__", "webob.multidict:GetDict.clear",
+    "webob.multidict:GetDict.setdefault", "webob.multidict:GetDict.pop", "webob.multidict:GetDict.popitem",
+    "webob.multidict:GetDict.update", "webob.multidict:GetDict.extend", "webob.multidict:GetDict.copy",
+    # the MultiDict operations GetDict delegates to (C08's step_i, reused)
+    "webob.multidict:MultiDict.__setitem__", "webob.multidict:MultiDict.add", "webob.multidict:MultiDict.__delitem__",
+    "webob.multidict:MultiDict.clear", "webob.multidict:MultiDict.setdefault", "webob.multidict:MultiDict.pop",
+    "webob.multidict:MultiDict.popitem", "webob.multidict:MultiDict.update", "webob.multidict:MultiDict.extend",
+    "webob.multidict:MultiDict.items",
+    # request.py: get_vars / hq_get (GET and its environ cache), params_items, transcode_query, enc_part / encode_multipart
+    "webob.request:BaseRequest.GET", "webob.request:BaseRequest.params", "webob.multidict:NestedMultiDict.items",
+    "webob.request:Transcoder.transcode_query", "webob.request:_encode_multipart",
+]
+REGENERATED = []          # C09 has no coq/Gen part
+# exercised by the oracle (and by the multipart-decode comparison with the reference splitter) but not mirrored in Gallina
+ORACLE_ONLY = [
+    "webob.request:BaseRequest.POST", "webob.request:BaseRequest.decode", "webob.request:BaseRequest.copy",
+    "webob.request:BaseRequest.copy_get", "webob.request:BaseRequest.blank", "webob.request:BaseRequest.body",
+    "webob.request:BaseRequest.copy_body", "webob.request:BaseRequest.make_body_seekable",
+    "webob.request:environ_add_POST", "webob.request:_get_multipart_boundary", "webob.request:Transcoder.transcode_fs",
+    "webob.request:Transcoder.__init__", "webob.multidict:MultiDict.from_fieldstorage", "webob.multidict:NoVars",
+    "webob.compat:cgi_FieldStorage", "webob.util:text_", "webob.util:bytes_",
+    "cgi:FieldStorage", "cgi:parse_header", "mimetypes:guess_type",
+]
+
+
 def run(ctx):
+    ctx.modelled(MODELLED)
+    ctx.extra["regenerated_from_source"] = REGENERATED
+    ctx.extra["oracle_only"] = ORACLE_ONLY
     ctx.build(["Props/C09.vo"])
     T = ctx.thorough
 
